@@ -398,13 +398,27 @@ static rc::Gen<Case> gen_ctr(int tier) {
       c.push_back(Op("buf", {*range<int>(0, nkeys - 1), *gen_nonce(), len, *range<int>(0, 1), data_seed()}));
     };
     if (*range<int>(0, 7) == 0) add_buf();
-    int nseg = *rc::gen::weightedElement<int>({{6, 1}, {4, 2}, {1, 3}});
+    int nseg = *rc::gen::weightedElement<int>({{6, 1}, {4, 2}, {1, 3}, {1, 4}});
+    int64_t prev_nonce = 0;
+    bool misalign = *range<int>(0, 1);  // half of the cases place their buffers at generated offsets 0..15
     for (int s = 0; s < nseg; s++) {
       int how = s == 0 ? *range<int>(0, 1) : *rc::gen::weightedElement<int>({{1, 0}, {1, 1}, {4, 2}, {4, 3}});
-      c.push_back(Op("init", {*range<int>(0, nkeys - 1), *gen_nonce(), how}));
+      // a re-initialisation often keeps the nonce (new key, same nonce; or a plain restart of the same keystream)
+      int64_t nonce = (s > 0 && *range<int>(0, 2) == 0) ? prev_nonce : *gen_nonce();
+      prev_nonce = nonce;
+      c.push_back(Op("init", {*range<int>(0, nkeys - 1), nonce, how}));
+      // sometimes a stream is initialised and never used (or only asked for 0 bytes) before it is initialised again
+      int unused = (s + 1 < nseg) ? *rc::gen::weightedElement<int>({{8, 0}, {1, 1}, {1, 2}}) : 0;
+      if (unused == 1) continue;
+      if (unused == 2) {
+        c.push_back(Op("s", {0, 0, data_seed()}));
+        continue;
+      }
       Plan p = gen_segment(gen_focus(tier, s == 0));
       int ip = *rc::gen::weightedElement<int>({{1, 0}, {1, 1}, {2, 2}});  // never / always / per call
-      for (int64_t n : p.calls) c.push_back(Op("s", {n, ip == 2 ? *range<int>(0, 1) : ip, data_seed()}));
+      for (int64_t n : p.calls)
+        c.push_back(Op("s", {n, ip == 2 ? *range<int>(0, 1) : ip, data_seed(), misalign ? *rc::gen::weightedElement<int>({{4, 0}, {1, 1}, {1, 8}, {1, 15}, {1, 5}}) : 0,
+                             misalign ? *rc::gen::weightedElement<int>({{4, 0}, {1, 1}, {1, 8}, {1, 15}, {1, 11}}) : 0}));
     }
     if (*range<int>(0, 4) == 0) add_buf();
     return c;
@@ -499,6 +513,7 @@ static Outcome run_ctr(const Case &c) {
       } else if (how == 2) {
         c02_ctr_init2(stream, lkeys[ki], nonce);
         o.cls(ki == m.keyidx ? "reinit:init2-same-key-pointer" : "reinit:init2-new-key");
+        if (ki != m.keyidx && nonce == m.nonce) o.cls(m.pos == 0 ? "reinit:new-key-same-nonce-stream-unused" : "reinit:new-key-same-nonce");
         o.cls(m.pos % 16 ? "reinit:mid-block" : "reinit:at-block-boundary");
       } else {
         ki = m.keyidx;
@@ -527,10 +542,17 @@ static Outcome run_ctr(const Case &c) {
       rs.need(m.pos + (size_t)len);
       std::string want((size_t)len, 0);
       for (size_t i = 0; i < (size_t)len; i++) want[i] = (char)(data[i] ^ rs.ks[m.pos + i]);
-      uint8_t *in = exact(data.data(), (size_t)len);
-      uint8_t *out = inplace ? in : (uint8_t *)malloc((size_t)len);
-      if (!out) harness_error("malloc");
+      // buffers at generated offsets 0..15 from an allocation (so in and out may be aligned differently); each ends where its block ends
+      size_t ioff = op.a.size() > 3 ? (size_t)(op.a[3] & 15) : 0, ooff = op.a.size() > 4 ? (size_t)(op.a[4] & 15) : 0;
+      uint8_t *in_blk = (uint8_t *)malloc(ioff + (size_t)len);
+      if (!in_blk) harness_error("malloc");
+      uint8_t *in = in_blk + ioff;
+      if (len) memcpy(in, data.data(), (size_t)len);
+      uint8_t *out_blk = inplace ? in_blk : (uint8_t *)malloc(ooff + (size_t)len);
+      if (!out_blk) harness_error("malloc");
+      uint8_t *out = inplace ? in : out_blk + ooff;
       if (!inplace && len) memset(out, 0xCC, (size_t)len);
+      if (len >= 16 && !inplace && ((uintptr_t)in & 15) != ((uintptr_t)out & 15)) o.cls(((uintptr_t)out & 15) == 0 ? "buffers:out-aligned-in-not" : ((uintptr_t)in & 15) == 0 ? "buffers:in-aligned-out-not" : "buffers:differently-misaligned");
       c02_ctr_stream(stream, in, out, (size_t)len);
       ncalls++;
       if (ncalls <= 24) calls_txt += " " + std::to_string(len) + (inplace ? "i" : "");
@@ -553,8 +575,8 @@ static Outcome run_ctr(const Case &c) {
       m.in += data;
       m.out.append((const char *)out, (size_t)len);
       m.pos = b;
-      if (!inplace) free(out);
-      free(in);
+      if (!inplace) free(out_blk);
+      free(in_blk);
     } else if (op.k == "buf" && op.a.size() >= 5) {
       int ki = (int)(((op.a[0] % (int64_t)keys.size()) + keys.size()) % keys.size());
       uint64_t nonce = (uint64_t)op.a[1];
@@ -823,6 +845,89 @@ static Outcome run_huge(const Case &c) {
   return o;
 }
 
+// ------------------------------------------------------------------ far stream positions (byte position past 2^32, 2^33)
+// Case: far k delta len1 len2 keysel seed chunklog.  The stream is driven to byte position k * 2^32 + delta by in-place calls on a zero
+// buffer of 2^chunklog bytes (output = keystream; the first and last two blocks of every call are judged by the harness's reference),
+// then calls of len1 and len2 bytes are judged byte by byte.
+static rc::Gen<Case> gen_far(int tier) {
+  return rc::gen::noShrink(rc::gen::exec([tier]() {
+    Case c;
+    c.push_back(Op("far", {tier ? *range<int>(1, 2) : 1, *range<int>(-40, 40), *range<int>(0, 96), *range<int>(0, 96), *range<int>(0, 3), *range<int64_t>(0, 1000000), *range<int>(24, 27)}));
+    return c;
+  }));
+}
+static Outcome run_far(const Case &c) {
+  Outcome o;
+  if (c.empty() || c[0].a.size() < 7) return o;
+  const auto &a = c[0].a;
+  uint64_t k = (uint64_t)std::max<int64_t>(1, std::min<int64_t>(a[0], 2));
+  int64_t delta = std::max<int64_t>(-64, std::min<int64_t>(a[1], 64));
+  size_t l1 = (size_t)std::max<int64_t>(0, std::min<int64_t>(a[2], 96)), l2 = (size_t)std::max<int64_t>(0, std::min<int64_t>(a[3], 96));
+  int ks = (int)(((a[4] % 4) + 4) % 4);
+  size_t chunk = (size_t)1 << std::max<int64_t>(20, std::min<int64_t>(a[6], 28));
+  std::string key = prbytes(0xFA2 + ks, ks & 1 ? 32 : 16);
+  uint64_t nonce = ks == 0 ? 0 : ks == 1 ? UINT64_MAX : ks == 2 ? 0xff00000000000000ULL : 0x0123456789abcdefULL;
+  RefKey rk = ref_expand(key);
+  uint8_t *kb = exact(key.data(), key.size());
+  void *lk = c02_key_expand(kb, key.size());
+  free(kb);
+  void *s = c02_ctr_init(lk, nonce);
+  if (!lk || !s) harness_error("key expand / init returned NULL");
+  auto ref_block = [&](uint64_t idx, uint8_t out[16]) {
+    uint8_t ctr[16];
+    for (int i = 0; i < 8; i++) ctr[i] = (uint8_t)(nonce >> (56 - 8 * i));
+    for (int i = 0; i < 8; i++) ctr[8 + i] = (uint8_t)(idx >> (56 - 8 * i));
+    ref_encrypt(rk, ctr, out);
+  };
+  uint64_t target = (k << 32) + (uint64_t)delta, pos = 0, judged = 0;
+  uint8_t *buf = (uint8_t *)malloc(chunk);
+  if (!buf) harness_error("malloc of the chunk buffer failed");
+  while (pos < target && o.ok) {
+    size_t n = (size_t)std::min<uint64_t>(chunk, target - pos);
+    memset(buf, 0, n);
+    c02_ctr_stream(s, buf, buf, n);
+    // judge the blocks at both ends of this call (positions are multiples of 16 except possibly at the very end)
+    for (int e = 0; e < 4 && o.ok; e++) {
+      uint64_t off = e < 2 ? (uint64_t)e * 16 : (n >= 32 ? n - (uint64_t)(e - 1) * 16 : 0);
+      if (off + 16 > n) continue;
+      uint64_t p0 = pos + off;
+      if (p0 % 16) continue;
+      uint8_t w[16];
+      ref_block(p0 / 16, w);
+      judged++;
+      if (memcmp(buf + off, w, 16) != 0)
+        o.fail("ctr-far", "call of " + std::to_string(n) + " zero bytes at stream position " + std::to_string(pos) + ": " + first_diff(buf + off, w, 16, p0));
+    }
+    pos += n;
+  }
+  free(buf);
+  size_t lens[2] = {l1, l2};
+  for (int i = 0; i < 2 && o.ok; i++) {
+    size_t n = lens[i];
+    std::string data = prbytes(199 + i + (uint64_t)a[5], n), want(n, 0);
+    for (size_t q = 0; q < n; q++) {
+      uint8_t w[16];
+      ref_block((pos + q) / 16, w);
+      want[q] = (char)(data[q] ^ w[(pos + q) % 16]);
+    }
+    uint8_t *in = exact(data.data(), n);
+    uint8_t *out = (uint8_t *)malloc(n);
+    c02_ctr_stream(s, in, out, n);
+    if (memcmp(out, want.data(), n) != 0)
+      o.fail("ctr-far-tail", "after " + std::to_string(pos) + " bytes of stream, call of " + std::to_string(n) + " bytes: " + first_diff(out, (const uint8_t *)want.data(), n, pos));
+    free(out);
+    free(in);
+    pos += n;
+  }
+  c02_ctr_free(s);
+  c02_key_free(lk);
+  o.cls("position:" + std::to_string(k) + "*2^32");
+  o.cls(pos > (k << 32) ? "calls-continue-past-k*2^32" : "stops-before-k*2^32");
+  pbt::count("far:blocks-judged-by-own-reference", judged);
+  o.nontrivial = pos > (k << 32);
+  return o;
+}
+
 int main(int argc, char **argv) {
   self_test();
   if (argc > 1 && std::string(argv[1]) == "--which-path") {
@@ -862,5 +967,9 @@ int main(int argc, char **argv) {
                   "256, 6 blocks around 2^k, 64 pseudo-random blocks and the short calls; OpenSSL EVP ECB over the counter blocks is a "
                   "second opinion for the remaining bulk (any disagreement is re-judged by the reference). Always non-trivial",
                   gen_huge, run_huge});
+  subs.push_back({"far",
+                  "the stream is driven to byte position k*2^32 + delta (k = 1; 1..2 thorough; delta in -40..40) by in-place calls on 16..128 MiB of zeros, the blocks at both "
+                  "ends of every call are judged by the FIPS-197 reference, then two calls of 0..96 bytes are judged byte by byte. Non-trivial: the calls continue past k*2^32",
+                  gen_far, run_far});
   return pbt_main(argc, argv, subs);
 }
